@@ -515,18 +515,26 @@ def parse_authority(authority: bytes) -> list[Node]:
         return out
     if b"@" in authority:
         offset = len(userinfo) + 1  # for the @
+    end = offset + len(host)  # the host text may be longer than the decoded host
+    raw_host = host
     host = unquote_to_bytes(host)
     if host.startswith(b"["):
         if not host.endswith(b"]"):
             raise ValueError("Invalid IPv6 URL")
         with contextlib.suppress(ValueError):
-            out.append(parse_ipv6(host[1:-1]).shift(offset + 1))
+            ipv6 = parse_ipv6(host[1:-1])
+            # The brackets are one byte each, or three if they are percent encoded
+            ipv6.start = offset + (1 if raw_host.startswith(b"[") else 3)
+            ipv6.end = end - (1 if raw_host.endswith(b"]") else 3)
+            out.append(ipv6)
     else:
         try:
-            out.append(parse_ip(host).shift(offset))
+            ip = parse_ip(host)
+            ip.start, ip.end = offset, end
+            out.append(ip)
         except ValueError:
             if is_domain(host):
-                out.append(Node("network.domain", host, "", offset, offset + len(host)))
+                out.append(Node("network.domain", host, "", offset, end))
     return out
 
 
